@@ -132,6 +132,59 @@ def publicise(text, is_item):
 CLAUSE_RE = re.compile(r"^\[([A-Za-z0-9_.,\- ]+)\]\s*(.*)$", re.S)
 
 
+def slice_match(text, scrut, keep, fn_id, log):
+    m = mask(text)
+    mm = re.search(r"\bmatch\s+" + re.escape(scrut) + r"\s*\{", m)
+    if not mm:
+        raise Undecided("lost match on %s in %s" % (scrut, fn_id))
+    b0 = mm.end() - 1
+    b1 = match_close(m, b0)
+    out = []
+    pos = b0 + 1
+    dropped = 0
+    while True:
+        # skip whitespace / comments (masked as spaces)
+        while pos < b1 and m[pos] in " \n\t,":
+            pos += 1
+        if pos >= b1:
+            break
+        # pattern up to `=>` at depth 0
+        j = pos
+        while j < b1:
+            c = m[j]
+            if c in "([{":
+                j = match_close(m, j) + 1
+                continue
+            if m.startswith("=>", j):
+                break
+            j += 1
+        pat = text[pos:j]
+        k = j + 2
+        while m[k] in " \n\t":
+            k += 1
+        if m[k] == "{":
+            e = match_close(m, k) + 1
+        else:
+            e = k
+            while e < b1:
+                c = m[e]
+                if c in "([{":
+                    e = match_close(m, e) + 1
+                    continue
+                if c == ",":
+                    break
+                e += 1
+        body = text[k:e]
+        if any(re.search(r"\b" + re.escape(kv) + r"\b", pat) for kv in keep):
+            out.append(text[pos:e])
+        else:
+            out.append(pat.rstrip() + " => { unreachable!() }")
+            dropped += 1
+        pos = e
+    log.append({"rule": "slice-match", "scrutinee": scrut, "kept": keep, "arms_replaced_by_unreachable": dropped})
+    return text[:b0 + 1] + "\n" + ",\n".join(out) + ",\n" + text[b1:]
+
+
 class Group:
     def __init__(self, name, features=None, disabled_hints=None, extra_items=None):
         self.name = name
@@ -511,6 +564,12 @@ class Group:
                 loops.setdefault(int(n), []).append((k, rest))
             elif d in ("replace", "replace?", "replace*", "replace_re", "replace_re?"):
                 text = self.apply_replace(d, arg, text, fn_id, log)
+            elif d == "slice_match":
+                # `slice_match <scrutinee> keep A|B`: arms of `match <scrutinee> {` whose pattern names none of the kept
+                # variants get the body `unreachable!()`, which the verifier must PROVE unreachable from the function's
+                # precondition (so the sliced function agrees with the real one wherever the precondition holds)
+                scrut, _, keep = arg.partition(" keep ")
+                text = slice_match(text, scrut.strip(), [k.strip() for k in keep.split("|")], fn_id, log)
             elif d in ("before", "after", "before?", "after?"):
                 pass  # handled below, after body split
             else:
